@@ -17,7 +17,6 @@ import (
 	"time"
 
 	"github.com/miekg/dns"
-	"github.com/semihalev/sdns/internal/dnsutil"
 	"github.com/semihalev/sdns/internal/vc15gen"
 )
 
@@ -133,9 +132,7 @@ func TestVerifC15CacheEntry(t *testing.T) {
 		if e != nil && e.stripped != nil {
 			// the DO=0 body: the same view through ClearDNSSEC, packed by the library
 			ref2 := vc15gen.VC15DeepCopy(msg)
-			v2 := vC15Storable(ref2)
-			dnsutil.ClearDNSSEC(v2)
-			v2.Compress = true
+			v2 := vC15CEStripped(vC15Storable(ref2)) // the driver's own filter, by object type
 			want2, werr2, wpanic2 := vc15gen.VC15LibPack(v2)
 			stripChecked = true
 			if wpanic2 || werr2 != nil || !bytes.Equal(e.stripped, want2) {
